@@ -876,6 +876,13 @@ func scripted(cfgIdx int) []*history {
 		&op{Kind: "slash", Slash: "0.5"},
 		&op{Kind: "undelegate", Who: 0, Amts: []coin{c(0, 100)}},
 		&op{Kind: "undelegate", Who: 1, Amts: []coin{c(0, 1)}})
+	// the same through governance (slash proposal handler -> slashing keeper -> its multistaking keeper)
+	add("witness:governance_slash_then_redeem", 0,
+		&op{Kind: "delegate", Who: 0, Amts: []coin{c(0, 100)}}, &op{Kind: "delegate", Who: 1, Amts: []coin{c(0, 100)}},
+		&op{Kind: "slash_proposal", Slash: "0.5"},
+		&op{Kind: "undelegate", Who: 0, Amts: []coin{c(0, 100)}},
+		&op{Kind: "undelegate", Who: 0, Amts: []coin{c(0, 50)}},
+		&op{Kind: "undelegate", Who: 1, Amts: []coin{c(0, 50)}})
 	// a stranger claims a matured undelegation of somebody else; the owner's own claim then fails
 	add("witness:claim_by_stranger", 0,
 		&op{Kind: "delegate", Who: 0, Amts: []coin{c(0, 500)}},
